@@ -105,6 +105,17 @@ func CatalogueForms() []Form {
 		c("iface_second_param_struct", "q := NSquare{side: y % 1000}\nr = nmeasure2(x%7, q)"),
 		c("iface_second_param_field", "cv := &NCanvas{sq: NSquare{side: x % 1000}, scale: 2}\nr = nmeasure2(x%7, cv.sq)"),
 		c("iface_first_param_struct", "q := NSquare{side: y % 1000}\nr = nmeasure(q)"),
+		// builtins with fewer or more arguments than the usual two
+		c("append_no_elems", "ys := append(xs)\nr = uint64(len(ys))"),
+		c("append_two_elems", "ys := append(xs, x, y)\nr = ys[3] + ys[4]*3 + uint64(len(ys))"),
+		c("append_three_elems", "ys := append(xs, 1, 2, 3)\nr = ys[5] + uint64(len(ys))"),
+		c("make_slice_with_cap", "ys := make([]uint64, 1, 4)\nys = append(ys, x)\nr = ys[1] + uint64(len(ys))"),
+		c("make_map_with_hint", "m2 := make(map[uint64]uint64, 8)\nm2[1] = x\nr = m2[1] + uint64(len(m2))"),
+		c("copy_result_unused", "ys := make([]uint64, 2)\ncopy(ys, xs)\nr = ys[1]"),
+		c("delete_missing_key", "delete(m, 77)\nr = uint64(len(m))"),
+		c("len_of_map", "r = uint64(len(m))"),
+		c("len_of_string_const", "r = uint64(len(\"abc\"))"),
+		c("cap_of_make", "ys := make([]uint64, 2)\nr = uint64(cap(ys))"),
 		// fields of function type are fields, not methods
 		c("func_field_value", "fs := FS{fn: mkAdder(1)}\ng := fs.fn\nr = g(x)"),
 		c("func_field_call", "fs := FS{fn: mkAdder(1)}\nr = fs.fn(x)"),
